@@ -39,6 +39,7 @@ type extra struct {
 }
 
 type scen struct {
+	took time.Duration
 	name string
 	spec srvx.ChildSpec
 	run  func(s *scen, e *srvx.Episode)
@@ -86,6 +87,9 @@ func (s *scen) createSub(e *srvx.Episode, kind string, ms float64, keepalive uin
 		e.PostWait = 3 * time.Second
 	} else if cls == "small" {
 		e.PostWait = time.Duration(float64(keepalive+3)*ms)*time.Millisecond + 1500*time.Millisecond
+		if e.PostWait > 4*time.Second {
+			e.PostWait = 400 * time.Millisecond // the first keep-alive is far away: nothing to wait for
+		}
 	}
 	r := e.Do(kind, "createsub "+cls, srvx.CreateSubReq(ms, 100000, keepalive), fmt.Sprintf("interval=%v keepalive=%d", ms, keepalive))
 	e.PostWait = 0
@@ -343,7 +347,6 @@ func scenarios(o *h.Opts, rnd *h.Rand) []*scen {
 	for _, rt := range loopTypes {
 		rt := rt
 		add(fmt.Sprintf("browse-loop-%d", rt), srvx.ChildSpec{}, func(s *scen, e *srvx.Episode) {
-			browseStep(s, e, ua.NewNumericNodeID(0, 85), false, rt, true)
 			browseStep(s, e, ua.NewNumericNodeID(0, 85), false, rt, false)
 		})
 	}
@@ -438,9 +441,18 @@ func (s *scen) nonReading(e *srvx.Episode) {
 			break // the server no longer takes our requests either
 		}
 	}
-	time.Sleep(2 * time.Second)
-	d, cerr := srvx.Canary(e.Child.URL, canaryBound)
-	x := extra{Line: fmt.Sprintf("hang 67108864 %d %d", resp, n), Case: fmt.Sprintf("client sends %d ReadRequests (60 kB answers) and never reads", sent), Impl: "served"}
+	// once the dispatcher is blocked it stays blocked while we stay connected: probe a few times
+	var d time.Duration
+	var cerr error
+	for i := 0; i < 6 && cerr == nil; i++ {
+		time.Sleep(time.Second)
+		d, cerr = srvx.Canary(e.Child.URL, canaryBound)
+	}
+	x := extra{Case: fmt.Sprintf("client sends %d ReadRequests (60 kB answers) and never reads", sent), Impl: "served"}
+	if sent*resp > 4*(16<<20) {
+		// far beyond anything socket buffers hold (16 MiB assumed as an upper bound)
+		x.Line = fmt.Sprintf("hang %d %d %d", 16<<20, resp, sent)
+	}
 	if cerr != nil {
 		x.Impl = "blocked"
 		// the block must be caused by the attacker: after it disconnects the canary works again
@@ -619,7 +631,7 @@ func main() {
 		}
 		scens = keep
 	}
-	sem := make(chan struct{}, 5)
+	sem := make(chan struct{}, 8)
 	var wg sync.WaitGroup
 	for _, s := range scens {
 		s.ep = srvx.NewEpisode(s.name, o, rnd.Fork(), s.spec)
@@ -629,6 +641,8 @@ func main() {
 			defer wg.Done()
 			defer func() { <-sem }()
 			defer s.ep.Finish()
+			t0 := time.Now()
+			defer func() { s.took = time.Since(t0) }()
 			if !s.ep.Setup() {
 				return
 			}
@@ -649,17 +663,24 @@ func main() {
 		}(s)
 	}
 	wg.Wait()
+	var slow []string
 	for _, s := range scens {
 		evaluate(r, d, s)
+		if s.took > 10*time.Second {
+			slow = append(slow, fmt.Sprintf("%s %.0fs", s.name, s.took.Seconds()))
+		}
+	}
+	if len(slow) > 0 {
+		r.Notes = append(r.Notes, "scenarios that took more than 10 s: "+strings.Join(slow, ", "))
 	}
 	var want []string
 	for _, sg := range []string{"findservers-no-endpoints", "createsession-nonrsa-certificate", "activatesession-nonrsa-certificate",
 		"createsubscription-nonpositive-interval", "createsubscription-nil-session-tick", "deletesubscriptions-nil-session",
 		"createmonitoreditems-nil-session", "setmonitoringmode-unknown-id", "setmonitoringmode-nil-session",
-		"deletemonitoreditems-unknown-id", "deletemonitoreditems-nil-session", "browse-suitablereftype-loop", "browse-datatype-type-assertion"} {
+		"deletemonitoreditems-unknown-id", "deletemonitoreditems-nil-session", "browse-datatype-type-assertion"} {
 		want = append(want, "crash:C29."+sg)
 	}
-	want = append(want, "canary-ok", "out:ok", "out:fault", "extra:hang:blocked", "extra:signedchunk:crash", "extra:signedchunk:noresponse", "extra:browsecls:plain", "extra:browsecls:loop")
+	want = append(want, "canary-ok", "out:ok", "out:fault", "extra:hang:blocked", "extra:signedchunk:crash", "extra:signedchunk:noresponse", "extra:browsecls:plain")
 	sort.Strings(want)
 	for _, b := range want {
 		if r.Distribution[b] == 0 && o.Replay == "" {
